@@ -18,6 +18,10 @@ oracle: (no Lean) oracle.reemit-roundtrip - re-emitted expression re-parses to t
         <%block>, <%page> and filter-call arguments in REAL templates evaluate to the same value as native `eval`;
         oracle.signatures - def signatures with every parameter kind, called with keyword subsets, bind the same
         values (and raise TypeError alike) as the same signature on a native function;
+        oracle.def-attributes - every parameter kind of a <%def> read in the def's OWN attribute expressions (filter=
+        call arguments, cache_key, with buffered=; top-level and nested; strict_undefined off and on): same value as for
+        a native function, and no parameter is demanded from the context; fixed witnesses for <%block>/<%page> and for
+        filter functions supplied through the context;
         oracle.block-values - <% %> / <%! %> blocks written at any margin (spaces/tabs) at top level, under % if,
         % for + % if and inside a <%def> compute the same values as native `exec` of the statements in a function with
         the template's namespace as globals (multi-line string contents incl. TABs, namespace reads after a lambda
@@ -49,9 +53,10 @@ RULE = ("expressions: a corpus of witnesses + random derivations of CPython's ex
         "kind, tuples/lists/sets/dicts incl. ** unpacking, the four comprehension kinds incl. async, f-strings, starred, "
         ":=, await, yield) to derivation depth 5, every sub-expression parenthesised in the source so that the AST shape is "
         "the generator's choice; evaluable expressions: a typed generator (int/float/bool/list/str/dict/lambda-call) over a "
-        "fixed environment, placed in 7 template slots; signatures: positional (with trailing defaults), *args or bare *, "
+        "fixed environment, placed in 7 template slots; signatures: positional-only and positional (with trailing defaults), *args or bare *, "
         "keyword-only with/without defaults in any order, **kw, called with positional counts and keyword subsets, in 3 "
-        "def shapes; statement blocks: a corpus + assignments, augmented assignments, for/while/if/try/with, imports, def "
+        "def shapes, and every parameter of each signature read in 4 attribute slots of the def itself x strict_undefined; "
+        "statement blocks: a corpus + assignments, augmented assignments, for/while/if/try/with, imports, def "
         "(all parameter kinds, defaults, decorators, bodies reading their parameters), class, lambdas, comprehensions, a "
         "lambda holding a comprehension followed by a namespace read of its variable, del, return, assert; executable "
         "blocks: assignments of single-, triple-quoted and backslash-continued literals containing quotes, '#', "
